@@ -55,9 +55,18 @@ class VOpt(V):
 class VRow(V):
     """One fetched row: a snapshot table and a rowid."""
 
-    def __init__(self, tbl, rid):
+    def __init__(self, tbl, rid, view=None):
         self.tbl = tbl
         self.rid = rid
+        self.view = view      # None: every column of tbl; else {key: (tbl, rowterm, column)} (column list / JOIN)
+
+
+class VUnknownColl(V):
+    """A local container whose contents the contracts say nothing about (e.g. a set mutated inside a loop under
+    contract without being declared loop-carried state): membership tests and truthiness are unconstrained."""
+
+    def __init__(self, why):
+        self.why = why
 
 
 class VRowList(V):
@@ -70,7 +79,8 @@ class VRowList(V):
         return And(self.tbl.live[r], self.pred(r))
 
     def at(self, i):
-        return VRow(self.tbl, self.rid[i])
+        vf = getattr(self, "viewfn", None)
+        return VRow(self.tbl, self.rid[i], vf(self.rid[i]) if vf else None)
 
 
 class VList(V):
